@@ -509,7 +509,12 @@ run_seq(void *argp)
 		case L_BUF0:
 		case L_BUF1:
 		case L_BUF2:
-			do_sendbuf(l == L_BUF0 ? 0 : l == L_BUF1 ? 1 : 2, &cur);
+			// "sendbuf2" grows on to 4 when the depth already is 2, so
+			// that a full power-of-two ring gets resized as well
+			do_sendbuf(l == L_BUF0       ? 0
+			        : l == L_BUF1        ? 1
+			        : (cur == 2 ? 4 : 2),
+			    &cur);
 			break;
 		case L_ASEND:
 			do_asend();
